@@ -343,23 +343,65 @@ pub fn run_schedule(prog: &ConcProg, choices: &[usize], opts: &RunOpts) -> ExecT
     let stack = Stack::with_layers(timer.clone(), inner.clone(), top, policy);
     let mut trace = ExecTrace::default();
     // setup (unscheduled: CLIENT_ID is None on this thread)
-    let mut cx = ClientCtx { handler: BinaryHandler::new(stack.memc.clone()), codec: MemcacheBinaryCodec::new(prog.item_limit) };
-    UNSCHED_STEPS.with(|c| c.set(0));
-    for c in &prog.setup {
-        let r = std::panic::catch_unwind(std::panic::AssertUnwindSafe(|| exec_one(&mut cx, c)));
-        match r {
-            Ok((r, _)) => trace.setup.push((c.clone(), r)),
-            Err(p) => {
-                let m = crate::panics::payload_to_string(&p);
-                if m.contains(LOOP_MARKER) {
-                    trace.stalled = Some(format!("the set-up command {} (run alone, before any client starts) made more than {} store operations without completing - it loops for ever", c.short(), MAX_STEPS));
-                } else {
-                    trace.panics.push(m);
+    // The set-up commands run on a helper thread: one that blocks on itself (a lock taken twice, a map call
+    // made under the map's own guard) must not take the harness with it. It is given 10 s.
+    let cx0 = ClientCtx { handler: BinaryHandler::new(stack.memc.clone()), codec: MemcacheBinaryCodec::new(prog.item_limit) };
+    type SetupOut = (ClientCtx, Vec<(Cmd, Option<Resp>)>, Option<String>, Option<String>);
+    let (tx, rx) = std::sync::mpsc::channel::<SetupOut>();
+    let progress: Arc<Mutex<String>> = Arc::new(Mutex::new(String::new()));
+    {
+        let setup = prog.setup.clone();
+        let progress = progress.clone();
+        let spawned = std::thread::Builder::new().name("l2-setup".into()).spawn(move || {
+            let mut cx = cx0;
+            let mut done = vec![];
+            let mut stalled = None;
+            let mut panicked = None;
+            UNSCHED_STEPS.with(|c| c.set(0));
+            for c in &setup {
+                *progress.lock().unwrap() = c.short();
+                let r = std::panic::catch_unwind(std::panic::AssertUnwindSafe(|| exec_one(&mut cx, c)));
+                match r {
+                    Ok((r, _)) => done.push((c.clone(), r)),
+                    Err(p) => {
+                        let m = crate::panics::payload_to_string(&p);
+                        if m.contains(LOOP_MARKER) {
+                            stalled = Some(format!("the set-up command {} (run alone, before any client starts) made more than {} store operations without completing - it loops for ever", c.short(), MAX_STEPS));
+                        } else {
+                            panicked = Some(m);
+                        }
+                        break;
+                    }
                 }
-                return trace;
             }
+            let _ = tx.send((cx, done, stalled, panicked));
+        });
+        if spawned.is_err() {
+            trace.stalled = Some("harness: could not start the set-up thread".into());
+            return trace;
         }
     }
+    let mut cx = match rx.recv_timeout(Duration::from_secs(10)) {
+        Ok((cx, done, stalled, panicked)) => {
+            trace.setup = done;
+            if let Some(st) = stalled {
+                trace.stalled = Some(st);
+                return trace;
+            }
+            if let Some(m) = panicked {
+                trace.panics.push(m);
+                return trace;
+            }
+            cx
+        }
+        Err(_) => {
+            trace.stalled = Some(format!(
+                "the set-up command {} (run alone, before any client starts) did not return within 10 s - it blocks on itself",
+                progress.lock().unwrap().clone()
+            ));
+            return trace;
+        }
+    };
     timer.add(prog.advance);
 
     let results: Arc<Mutex<Vec<OpRec>>> = Arc::new(Mutex::new(vec![]));
